@@ -15,6 +15,8 @@ import traceback
 VERIF = os.path.dirname(os.path.dirname(os.path.abspath(__file__)))
 REPO = os.environ.get('VF_REPO', '/repo')
 SRC = os.path.join(REPO, 'src')
+# where evidence/ and replays/ are written; redirected when the checks are pointed at a seeded copy
+OUT = os.environ.get('VF_OUT', VERIF)
 
 MAX_EXAMPLES_PER_SIG = 2
 MAX_SAMPLES = 6
@@ -211,7 +213,7 @@ class Report:
                 ent[2] += 1
                 continue
             n_viol += 1
-            rdir = os.path.join(VERIF, 'replays', prop)
+            rdir = os.path.join(OUT, 'replays', prop)
             os.makedirs(rdir, exist_ok=True)
             path = os.path.join(rdir, hashlib.sha1(sig.encode()).hexdigest()[:12] + '.json')
             with open(path, 'w') as f:
@@ -237,8 +239,8 @@ class Report:
             'coverage': cov, 'assumptions': self.assumptions, 'wall_s': round(wall, 2),
             'violations': n_viol,
         }
-        os.makedirs(os.path.join(VERIF, 'evidence'), exist_ok=True)
-        with open(os.path.join(VERIF, 'evidence', f'{self.prop}.json'), 'w') as f:
+        os.makedirs(os.path.join(OUT, 'evidence'), exist_ok=True)
+        with open(os.path.join(OUT, 'evidence', f'{self.prop}.json'), 'w') as f:
             json.dump(ev, f, indent=1, default=str)
         for ln in lines:
             print(ln)
